@@ -441,6 +441,8 @@ func main() {
 	maxCases := flag.Int("max", 100, "maximum number of cases (seeded choice)")
 	workersN := flag.Int("workers", 12, "parallel children")
 	replay := flag.String("replay", "", "replay one failure record")
+	dumpJobs := flag.String("dumpjobs", "", "write the first -dumpn jobs with the expected raw program (for an independent strace capture) to this file")
+	dumpN := flag.Int("dumpn", 5, "")
 	flag.Parse()
 	if *isChild {
 		child()
@@ -612,6 +614,30 @@ func main() {
 		}
 	}
 	sum.Cases = len(cases)
+	if *dumpJobs != "" {
+		df, err := os.Create(*dumpJobs)
+		if err != nil {
+			fmt.Fprintln(os.Stderr, err)
+			os.Exit(2)
+		}
+		enc := json.NewEncoder(df)
+		for i := 0; i < len(works) && i < *dumpN; i++ {
+			pol, _ := buildPolicy(works[i].j.Policy)
+			insts, err := pol.Assemble()
+			if err != nil {
+				continue
+			}
+			raw, _ := bpf.Assemble(insts)
+			var prog [][4]uint32
+			for _, r := range raw {
+				prog = append(prog, [4]uint32{uint32(r.Op), uint32(r.Jt), uint32(r.Jf), r.K})
+			}
+			j := *works[i].j
+			j.Probes = nil
+			enc.Encode(map[string]interface{}{"job": j, "program": prog})
+		}
+		df.Close()
+	}
 	ch := make(chan work)
 	var wg sync.WaitGroup
 	for i := 0; i < *workersN; i++ {
